@@ -1,5 +1,6 @@
 """Rule runner: obligations, violations, known findings, evidence."""
 import json
+import re
 import os
 import time
 import traceback
@@ -125,6 +126,18 @@ class Run:
             if r.kind == 'K-WITNESS' and config != 'default':
                 continue
             cx = Ctx(F, self.prop, r)
+            if lenient:
+                # a partial feature configuration builds some crates only: a report about a function of a crate that is not
+                # part of this configuration ("no longer exists / no longer calls ..") says nothing about the source
+                built = set(F.crates)
+                _report = cx.violation
+
+                def _filtered(function, descriptor, message, loc=None, path=None, _report=_report, built=built):
+                    m_ = re.match(r'^<?(\w+)::', function or '')
+                    if m_ and m_.group(1).startswith('yash_') and m_.group(1) not in built:
+                        return
+                    _report(function, descriptor, message, loc=loc, path=path)
+                cx.violation = _filtered
             try:
                 r.fn(cx)
                 if not cx.sites and not cx.cells:
